@@ -20,9 +20,21 @@ fn count_to_f64(count: usize) -> f64 {
     count as f64
 }
 
-/// Whether two finite values are bit-for-bit equal (tie detection for ranks).
+/// Orders two values numerically, falling back to [`f64::total_cmp`] only when a `NaN` makes
+/// them incomparable.
+///
+/// [`f64::total_cmp`] alone places `-0.0` below `+0.0`, yet the two are the same number: ranking
+/// them apart would report a tie as a difference. Every other pair of non-`NaN` values orders the
+/// same way under both comparisons, and a `NaN` still sorts to a fixed end instead of corrupting
+/// the ordering.
+fn numeric_cmp(left: f64, right: f64) -> Ordering {
+    left.partial_cmp(&right)
+        .unwrap_or_else(|| left.total_cmp(&right))
+}
+
+/// Whether two finite values are numerically equal (tie detection for ranks).
 fn same(left: f64, right: f64) -> bool {
-    left.total_cmp(&right) == Ordering::Equal
+    numeric_cmp(left, right) == Ordering::Equal
 }
 
 /// The number of unordered pairs `(i, j)` with `i < j` drawn from `count`
@@ -149,7 +161,7 @@ pub(crate) fn scaled_average_ranks(values: &[f64]) -> Vec<usize> {
     // Unstable sort: ties are resolved explicitly below by spanning every element
     // of equal value, so the relative order within a tie run is irrelevant and the
     // in-place sort avoids the stable sort's scratch allocation.
-    indexed.sort_unstable_by(|left, right| left.1.total_cmp(&right.1));
+    indexed.sort_unstable_by(|left, right| numeric_cmp(left.1, right.1));
 
     let mut ranks = vec![0_usize; values.len()];
     let mut start = 0_usize;
@@ -172,7 +184,7 @@ pub(crate) fn scaled_average_ranks(values: &[f64]) -> Vec<usize> {
 /// affect any tie correction).
 fn tie_group_sizes(values: &[f64]) -> Vec<usize> {
     let mut sorted = values.to_vec();
-    sorted.sort_unstable_by(f64::total_cmp);
+    sorted.sort_unstable_by(|left, right| numeric_cmp(*left, *right));
     sorted
         .chunk_by(|left, right| same(*left, *right))
         .map(<[f64]>::len)
@@ -662,7 +674,7 @@ pub fn mann_kendall(values: &[f64]) -> MannKendall {
     let mut s = 0.0_f64;
     for (i, &earlier) in values.iter().enumerate() {
         for &later in values.iter().skip(i.saturating_add(1)) {
-            s += match later.total_cmp(&earlier) {
+            s += match numeric_cmp(later, earlier) {
                 Ordering::Greater => 1.0,
                 Ordering::Less => -1.0,
                 Ordering::Equal => 0.0,
